@@ -328,6 +328,12 @@ theorem rekey_keeps_authentication (s : PV.RunLoop.St) (x : PV.RunLoop.Ext) :
     by_cases hk : s.haveK = true <;> by_cases a : s.agreedStrict = true <;> by_cases c : x.needRekey = true <;>
       simp [hk, a, c, hne, PV.RunLoop.St.fail]
 
+/-- **How long a sender waits for a re-exchange is a matter of the clock** (AST of `Transport._send_user_message`,
+read on every run): the give-up test is `time.time() > start + clear_to_send_timeout` with `start` taken from the
+clock before the loop — not a count of 0.1 s wait slices.  A re-exchange that takes longer than a few seconds but
+less than `clear_to_send_timeout` must leave parked senders parked ("traffic continues intact"). -/
+theorem send_wait_bound_is_elapsed_time : Generated.C11.sendTimeoutReadsClock = true := by decide
+
 /-! ## non-vacuity: a scaled-down packetizer through two complete rekeys and an ignoring peer -/
 
 private def small : Limits := ⟨4, 1000, 3, 500⟩
